@@ -311,8 +311,10 @@ def items(tier, seed):
         out.append(("protocol_ci2", seed, chunk))
     for model, dt in _ci_dims(tier):
         for kind in KINDS:
-            for idx in range(len(_ci_intervals(dt))):
-                out.append(("coincide", model, dt, kind, seed, idx))
+            idxs = list(range(len(_ci_intervals(dt))))
+            # items of roughly equal cost: SpecialPerturbations is ~15x dearer per trajectory than TwoBody
+            for chunk in fw.chunked(idxs, 1 if model == "special_perturbations" else len(idxs)):
+                out.append(("coincide", model, dt, kind, seed, chunk))
         out.append(("columns2", model, dt, seed))
     for model in MODELS:
         for dt in scen_dts:
@@ -1691,21 +1693,21 @@ def _ci_dims(tier):
 
 
 def _run_coincide(res, item):
-    _, model, dt, kind, seed, idx = item
-    idx = int(idx)
+    _, model, dt, kind, seed, idxs = item
     start = _epoch(seed)
     world = World(model, dt, start, CI_STEPS)
     spec = _spec(kind, seed)
     pos, vel = _orbit("up", dt, seed)
     times = [float((j + 1) * dt) for j in range(CI_STEPS)]
     t_final = times[-1]
-    ts, te = (float(x) for x in _ci_intervals(dt)[idx])
-    burns = [(ts, te, spec)]
     probe = world.agent(pos, vel)
     gravity = world.gravity(probe)
     y0 = np.array(probe.eci_state, dtype=float)
     aid = probe.simulation_id
-    for where, ti in _ci_positions(dt, idx):
+    for idx, where, ti in [(int(i), w, t) for i in idxs for w, t in _ci_positions(dt, int(i))]:
+        ts, te = (float(x) for x in _ci_intervals(dt)[idx])
+        burns = [(ts, te, spec)]
+        one = ("coincide", model, dt, kind, seed, [idx])
         for frame in ("eci", "ntw"):
             dv = _ci_dv(frame, seed)
             imps = [(ti, dv, frame)]
@@ -1763,13 +1765,13 @@ def _run_coincide(res, item):
                     if err is not None:
                         res.case(f"{level}/interval", case, False, nontrivial=True,
                                  signature=f"C15/{level}/interval/{MODELS[model]}/{region}/error", observed=err[:300],
-                                 expected="propagates", outcome="error", item=item)
+                                 expected="propagates", outcome="error", item=one)
                         res.observe(err[:80])
                         continue
                     # within one call there are no step boundaries: "the step that contains the end" is the call
                     step = dt if mode == "split" else t_final
                     _classify(res, level, level, model, case, lib, out_times, y0, gravity, burns, burns, step,
-                              impulses=imps, item=item, nontrivial=True, coast=coast, region=region, ref=ref,
+                              impulses=imps, item=one, nontrivial=True, coast=coast, region=region, ref=ref,
                               extra_hyp=[("coincident_impulse_dropped", burns, [])])
                     res.states += len(out_times) + 1
                     res.transitions += len(out_times)
